@@ -5,7 +5,11 @@ pub mod c02;
 pub mod c08;
 pub mod c09;
 pub mod c10;
+pub mod c14;
+pub mod c15;
+pub mod c16;
+pub mod c20;
 
 pub fn all() -> Vec<Property> {
-    vec![c01::property(), c02::property(), c08::property(), c09::property(), c10::property()]
+    vec![c01::property(), c02::property(), c08::property(), c09::property(), c10::property(), c14::property(), c15::property(), c16::property(), c20::property()]
 }
